@@ -152,7 +152,7 @@ Definition enc_lazy_result (r : lazy_result (Z * @rhs Z)) : sexp :=
 Definition enc_lplan (p : lplan) : sexp :=
   match p with
   | LDirect => SA "direct"
-  | LMember B q => SL [SA "member"; enc_shape B; enc_bplan q]
+  | LMember B sd q => SL [SA "member"; enc_shape B; enc_bplan q; enc_nat sd]
   | LDense q => SL [SA "dense"; enc_bplan q]
   | LUnsliced B => SL [SA "unsliced"; enc_shape B]
   | LRaised => SA "raise"
@@ -172,10 +172,17 @@ Definition dispatch (cmd : string) (args : list sexp) : option sexp :=
       | Some f, Some d, Some s, Some o => Some (enc_res enc_lazy_result (lazy_binary_plan fixed_lazy fixed_D49 f s o d))
       | _, _, _, _ => None
       end
-  | "lazybcast", [bs; sd; os] =>
-      match dec_shape bs, dec_nat sd, dec_list dec_okind os with
-      | Some bs, Some sd, Some os => Some (enc_lplan (lazy_maybe_broadcast fixed_lazy bs sd os))
-      | _, _, _ => None
+  | "lazybcast", [bs; sd; het; os] =>
+      match dec_shape bs, dec_nat sd, dec_bool het, dec_list dec_okind os with
+      | Some bs, Some sd, Some het, Some os => Some (enc_lplan (lazy_maybe_broadcast fixed_lazy het bs sd os))
+      | _, _, _, _ => None
+      end
+  | "expandmember", [bs; B; sd; i; jb] =>
+      match dec_shape bs, dec_shape B, dec_nat sd, dec_nat i, dec_list dec_nat jb with
+      | Some bs, Some B, Some sd, Some i, Some jb =>
+          let sd' := expand_stack_dim bs sd B in
+          Some (SL [enc_nat sd'; enc_list enc_nat (bidx bs (insert_at sd' i jb))])
+      | _, _, _, _, _ => None
       end
   | "lazysoftmax", [nb; sd; SZ dim] =>
       match dec_nat nb, dec_nat sd with
